@@ -374,10 +374,16 @@ def check_span(prop: str, res: Result, repo: Repo):
                 else:
                     res.fail(rule, finding(prop, rule, fi, c, "a helper is recomputed over a range that is not a single index (work grows with the range / history)"))
             elif nm == "_calculate_sub_indicators":
-                pos = [a for a in c.args]
-                if len(pos) <= 1 and not any(k.arg in ("start_index", "end_index") for k in c.keywords):
+                # the range is the callee's last two parameters, however they are passed (and whatever precedes them)
+                callee = repo.method("hexital.core.indicator", "Indicator", "_calculate_sub_indicators")
+                npar = len([p_ for p_ in callee.params if p_ not in ("self", "cls")])
+                given = lambda k: k < len(c.args) or any(kw.arg == [p_ for p_ in callee.params if p_ not in ("self", "cls")][k] for kw in c.keywords)
+                bounds = [arg_of(c, callee, npar - 2), arg_of(c, callee, npar - 1)] if npar >= 3 and given(npar - 2) and given(npar - 1) else None
+                if bounds is not None and not (fi.name == "calculate_index" and _own_range(fi, bounds)):
+                    bounds = _local_defs(fi, bounds)
+                if bounds is None and not (npar >= 3 and (given(npar - 2) or given(npar - 1))):
                     res.ok(rule, {"site": f"{fi.where} {norm_construct(c)}", "span": "resume (calculate())"})
-                elif len(pos) == 3 and (_span_one(pos[1], pos[2]) or (fi.name == "calculate_index" and (all(isinstance(a, ast.Name) and a.id in params for a in pos[1:]) or _own_range(fi, pos[1:])))):
+                elif bounds is not None and (_span_one(bounds[0], bounds[1]) or (fi.name == "calculate_index" and (all(isinstance(a, ast.Name) and a.id in params for a in bounds) or _own_range(fi, bounds)))):
                     res.ok(rule, {"site": f"{fi.where} {norm_construct(c)}", "span": "1 or caller's own range"}, nontrivial=f"{fi.qualname}:sub")
                 else:
                     res.fail(rule, finding(prop, rule, fi, c, "sub-indicators are recomputed over a range that is not a single index"))
@@ -390,6 +396,27 @@ def check_span(prop: str, res: Result, repo: Repo):
         res.ok(rule, {"site": sub.where, "why": "sub-indicators resume (calculate) or recompute the caller's range"})
     else:
         res.fail(rule, finding(prop, rule, sub, sub.node, "_calculate_sub_indicators must drive helpers with calculate() / calculate_index(range)", construct="_calculate_sub_indicators: " + ",".join(sorted(names))))
+
+
+def _local_defs(fi, bounds):
+    """bounds given as names that are each bound once, at the top level of the function, to an expression over names that are not
+    re-bound afterwards: the defining expressions (so `a = i ; b = i + 1 ; f(a, b)` is the span `(i, i + 1)`)"""
+    body = fi.node.body
+    out = []
+    for b in bounds:
+        if not isinstance(b, ast.Name):
+            out.append(b)
+            continue
+        stores = [n for n in ast.walk(fi.node) if isinstance(n, ast.Name) and n.id == b.id and isinstance(n.ctx, ast.Store)]
+        defs = [(i, st) for i, st in enumerate(body) if isinstance(st, ast.Assign) and len(st.targets) == 1 and isinstance(st.targets[0], ast.Name) and st.targets[0].id == b.id]
+        if len(stores) != 1 or len(defs) != 1 or b.id in fi.params:
+            out.append(b)
+            continue
+        i, st = defs[0]
+        free = {n.id for n in ast.walk(st.value) if isinstance(n, ast.Name)}
+        later = any(isinstance(n, ast.Name) and n.id in free and isinstance(n.ctx, ast.Store) for later_st in body[i + 1 :] for n in ast.walk(later_st))
+        out.append(b if later or any(isinstance(n, ast.Call) for n in ast.walk(st.value)) else st.value)
+    return out
 
 
 def _span_one(a: ast.AST, b: ast.AST) -> bool:
